@@ -51,10 +51,23 @@ let () =
           String.concat " " [ (match m_solve ops a b true with C02_Ok _ -> "OK" | C02_FMatrixError -> "EXC FMatrixError" | C02_DivByZero -> "EXC DivByZero");
                               (match c02_determinant ops a true with C02_Ok _ -> "OK" | C02_FMatrixError -> "EXC FMatrixError" | C02_DivByZero -> "EXC DivByZero");
                               (match m_invert ops a true with C02_Ok _ -> "OK" | C02_FMatrixError -> "EXC FMatrixError" | C02_DivByZero -> "EXC DivByZero") ]
-      | ("F" | "D" | "X" | "Y"), "solve" -> let a = mat 0 in res_str strs (if dflt && not chk then c02_solve_dflt ops a (vec (n * n)) else m_solve ops a (vec (n * n)) piv) ^ " | U" ^ specdet a
-      | ("F" | "D" | "X" | "Y"), "det" -> let a = mat 0 in res_str (fun d -> strs [d]) (if dflt then c02_determinant_dflt ops a else c02_determinant ops a piv) ^ " | U" ^ specdet a
-      | ("F" | "D" | "X" | "Y"), "invert" -> let a = mat 0 in invert_obs ops a piv dflt flat ^ specdet a
-      | ("F" | "D" | "X" | "Y"), "seq" ->
+      | ("F" | "D" | "X" | "Y" | "Z" | "W" | "R" | "V"), "solvealias" ->
+          (* model of the patched code (= c02_solve: b is read before x is written); third field: the code as it is *)
+          let a = mat 0 in res_str strs (m_solve ops a (vec (n * n)) piv) ^ " | U" ^ specdet a ^ " # asis " ^ res_str strs (c02_solve_aliased ops a (vec (n * n)) piv)
+      | ("F" | "D" | "X" | "Y" | "Z" | "W" | "R" | "V"), "solverow" ->
+          let a = mat 0 in res_str strs (m_solve ops a (List.hd a) piv) ^ " | U" ^ specdet a
+      | ("F" | "D" | "X" | "Y" | "Z" | "W" | "R" | "V"), "seqthrow" ->
+          let a = mat 0 and b = vec (n * n) in
+          let (s1, a') = (match m_invert ops a piv with
+                          | C02_Ok bi -> ("OK " ^ flat bi, bi)
+                          | C02_FMatrixError -> ("EXC FMatrixError U", a)
+                          | C02_DivByZero -> ("EXC DivByZero U", a)) in
+          let plain f = function C02_Ok v -> "OK " ^ f v | C02_FMatrixError -> "EXC FMatrixError" | C02_DivByZero -> "EXC DivByZero" in
+          s1 ^ " ; " ^ plain (fun d -> strs [d]) (c02_determinant ops a' piv) ^ " ; " ^ plain strs (m_solve ops a' b piv) ^ specdet a
+      | ("F" | "D" | "X" | "Y" | "Z" | "W" | "R" | "V"), "solve" -> let a = mat 0 in res_str strs (if dflt && not chk then c02_solve_dflt ops a (vec (n * n)) else m_solve ops a (vec (n * n)) piv) ^ " | U" ^ specdet a
+      | ("F" | "D" | "X" | "Y" | "Z" | "W" | "R" | "V"), "det" -> let a = mat 0 in res_str (fun d -> strs [d]) (if dflt then c02_determinant_dflt ops a else c02_determinant ops a piv) ^ " | U" ^ specdet a
+      | ("F" | "D" | "X" | "Y" | "Z" | "W" | "R" | "V"), "invert" -> let a = mat 0 in invert_obs ops a piv dflt flat ^ specdet a
+      | ("F" | "D" | "X" | "Y" | "Z" | "W" | "R" | "V"), "seq" ->
           (* det, solve, invert, det of the inverse, invert back, solve again — composed from the model functions *)
           let a = mat 0 and b = vec (n * n) in
           let exc st = function C02_FMatrixError -> "EXC FMatrixError @" ^ st | C02_DivByZero -> "EXC DivByZero @" ^ st | C02_Ok _ -> "?" in
@@ -85,6 +98,8 @@ let () =
       | "H", ("hinv" | "hinvT") ->
           let a = mat 0 in
           res_str (fun (d, b) -> strs [d] ^ " ; " ^ flat b) (c02_help_invert ops a (op = "hinvT")) ^ " | U" ^ specdet a
+      | "H", "hinvalias" -> "-"
+      | "G", ("solvedyn" | "solvealias") -> (match c02_diag_solve ops (vec 0) (vec n) with Some x -> "OK " ^ strs x | None -> "EXC DivByZero") ^ " | U"
       | "G", "solve" -> (match c02_diag_solve ops (vec 0) (vec n) with Some x -> "OK " ^ strs x | None -> "EXC DivByZero") ^ " | U"
       | "G", "invert" -> (match c02_diag_invert ops (vec 0) with Some x -> "OK " ^ strs x | None -> "EXC DivByZero")
       | "G", "det" -> "OK " ^ strs [c02_diag_det ops (vec 0)] ^ " | U" ^ " # " ^ string_of_int (int_of_z (c02_spec_det ops (nat_of_int n) (c02_diag_dense ops (vec 0))))
